@@ -15,7 +15,8 @@
       Clone            CloneTx + Signature.Clone: drops both
       Hash             CloneTx, Signature = nil, Header = nil
       FullHash         Clone
-      checkSign        CloneTx, Signature = nil
+      checkSign        CloneTx, Signature = nil (after the sender gate, which
+                       reads Signature.ty / pubkey only)
       Sign             encodes the transaction itself with Signature = nil:
                        the unknown fields ARE in the signed bytes
       types.Encode / Size / proto.Clone / proto.Equal keep everything. *)
@@ -128,6 +129,19 @@ Definition check_sign_d (ds : list drv) (verify : Z -> list N -> list N -> list 
       match load ds (crypto_id (s_ty s)) h with
       | None => false
       | Some dr => verify (d_id dr) (signed_bytes_d d) (s_pub s) (s_sig s)
+      end
+  end.
+
+(** Transaction.CheckSign of a decoded message: the sender gate looks at the
+    declared ty and pubkey only *)
+Definition check_sign_tx_d (adrv : Z -> list N -> aout) (ds : list drv)
+    (verify : Z -> list N -> list N -> list N -> bool) (d : dtx) (h : Z) : bool :=
+  match signature (d_tx d) with
+  | None => false
+  | Some _ =>
+      match from_addr adrv (d_tx d) with
+      | None => false
+      | Some _ => check_sign_d ds verify d h
       end
   end.
 
